@@ -62,6 +62,23 @@ def spread_spec(depth, heavy, micro, pol=1):
 
 def check_case(case, want=("C01",)):
     res = Res()
+    if case["fam"] == "c05edit":   # the edit histories of C05 (rename / re-rail / hand-over / delete an input, re-add the mux), judged by the C01 row laws
+        from . import c05
+        r5 = c05.check_case(case["case"])
+        for sig, det in r5.viol:
+            if len(sig) > 1 and sig[1].startswith("C01."):
+                res.v(("C01.after-edit",) + tuple(sig[1:]), det)
+        res.stats.update(r5.stats)
+        res.nontrivial = r5.nontrivial
+        return res
+    if case["fam"] == "phased":    # per-phase load tables (incl. an explicit 0 and a negative value) and phase lists: every phase obeys the laws
+        from ..sysmodel import with_phases, PH2
+        spec = spec_from_forest(case["f"], case["pal"], 1, case["srs"])
+        names = [c["n"] for c in spec["comps"]]
+        spec = with_phases(spec, PH2, dict(zip(names, case["assign"])))
+        phys.solve_and_check(res, spec, want, ta=25.0)
+        res.nontrivial = 1
+        return res
     if case["fam"] == "spread":
         spec = spread_spec(case["depth"], case["heavy"], case["micro"], case["pol"])
         before = res.stats["nontrivial_rows"]
@@ -190,6 +207,18 @@ def gen_cases(tier, want_mirror=True):
             for f in zero.iter_forests(n):
                 for pol, srs in ((1, 0.0), (-1, 0.0), (1, SRS)):
                     yield dict(fam="zero", f=f, pal=pal, pol=pol, srs=srs, n=n)
+        from ..sysmodel import pc_options, PH2
+        import itertools as _it
+        for n in (1, 2):
+            for f in deep.iter_forests(n):
+                base = spec_from_forest(f, pal, 1, SRS)
+                for assign in _it.product(*[pc_options(c, PH2, full=(n == 1)) for c in base["comps"]]):
+                    if any(a is not None for a in assign):
+                        yield dict(fam="phased", f=f, pal=pal, pol=1, srs=SRS, n=n, assign=list(assign))
+        from . import c05
+        for c5 in c05.gen_edits(tier, pal):
+            if c5.get("handover") or c5.get("rename") or (c5.get("delete") and not c5.get("remux") and not c5.get("reload")):
+                yield dict(fam="c05edit", case=c5, pal=pal, pol=1, srs=0.0, n=len(c5["inputs"]))
         from ..sysmodel import SIG_MICRO
         for n in (1, 2, 3):
             for f in Trees(*SIG_MICRO).iter_forests(n):
